@@ -48,5 +48,6 @@ for d in sorted(os.listdir(os.path.join(V, "neutral"))):
         "what_it_changes": notes.strip()[:1500],
         "confirmed": "273 tests pass with the change; the sub-agent's differential transcript (diff.py) is byte-identical with and without it (harness/neutral_verify.sh)",
         "checks_run": allr,
+        "patch_note": "patch.diff rebased onto a later fix: commit of /repo (the same change on the repaired code, transcript still identical); the sub-agent's original is patch.original.diff" if os.path.exists(os.path.join(sd, "patch.original.diff")) else "patch.diff applies to /repo HEAD",
         "quiet": all(r["exit_code"] == 0 and not r["violation_line"] for r in allr),
     }, open(os.path.join(sd, "meta.json"), "w"), indent=1)
